@@ -108,7 +108,7 @@ pub fn check(c: &Case) -> CheckResult {
     }
 }
 
-fn strategy() -> impl Strategy<Value = Case> {
+pub fn strategy() -> impl Strategy<Value = Case> {
     let alpha = || prop::sample::select(ALPHA.to_vec());
     prop_oneof![
         4 => (vec(alpha(), 0..300), any::<u16>(), prop_oneof![3 => Just(0usize), 1 => 1usize..100]).prop_map(|(buf, f, over)| {
